@@ -314,6 +314,10 @@ func (it *Interp) runPath(fn *ssa.Function, res *UnitResult) (stop bool) {
 	it.mainDeferFr = nil
 	it.sched = newSched(it)
 	it.callStack = nil
+	for _, o := range it.frozenObjs {
+		o.nowrite = false
+	}
+	it.frozenObjs = nil
 	it.tt.active = map[int32]bool{}
 	it.ex.UserChoices = nil
 	it.panicStack = nil
